@@ -95,6 +95,21 @@ def gen_case(rng, exact=True):
         ts, ctx, elim, _kept = gen.kaykobad_case(rng, refine)
         order = rng.choice([[1], [1], [3], [1, 2, 3, 4, 5], [3, 1], [5, 4, 3, 2, 1]])
         simplify = False
+    elif rng.random() < 0.1:
+        # an eliminated variable that occurs ONLY in the context: the term's own eliminated variable is bounded through it, so a
+        # tactic can bring it into the result -- relaxing must still return nothing that mentions it
+        names = list(gen.VARS)
+        rng.shuffle(names)
+        x, y, w, z = names[:4]
+        sg = rng.choice([1, -1])
+        ts = [({x: gen.rand_coef(rng), y: F(-sg)}, F(rng.randint(0, 8)))]
+        ctx = [({y: F(sg), w: F(-sg)}, F(rng.randint(0, 3))), ({w: F(sg), z: F(-sg)}, F(rng.randint(0, 3))), ({z: F(sg)}, F(rng.randint(0, 4)))]
+        if rng.random() < 0.4:
+            ctx.append(({z: F(-sg)}, F(rng.randint(0, 4))))
+        rng.shuffle(ctx)
+        elim = [y, w]
+        order = rng.choice([[5], [1, 2, 3, 4, 5], [5, 4, 3, 2, 1], [2, 5]])
+        simplify = rng.random() < 0.5
     elif rng.random() < 0.12:
         # chains of two-variable rows through eliminated variables (tactic 4 recursion), ending in a bound or in a dead end
         ts, ctx, elim, order = chain_case(rng, refine)
